@@ -520,6 +520,9 @@ class Node:
         for item in attr_node.seq_items():
             # we've already checked that it's a SequenceNode above
             key_node = item.get_attribute(key_attribute).yaml_node
+            # modify a copy, the item may be used elsewhere as well
+            item = Node(copy(item.yaml_node))
+            item.yaml_node.value = list(item.yaml_node.value)
             item.remove_attribute(key_attribute)
             if (
                     value_attribute is not None and
@@ -762,7 +765,9 @@ class Node:
 
         new_value = list()
         for key_node, value_node in attr_node.yaml_node.value:
-            # filter out key atttribute
+            # filter out key atttribute, in a copy because the item may
+            # be used elsewhere in the document too
+            value_node = copy(value_node)
             value_node.value = [
                     (k, v) for k, v in value_node.value
                     if k.value != key_attribute]
